@@ -262,6 +262,29 @@ func (g *histGen) input(def string, c srDef) (float64, float64) {
 	return lon * 100000, lat * 100000
 }
 
+// near returns an input that agrees with (x, y) in one coordinate, or differs from it by one ulp / 1e-10 /
+// 1e-7 relative in the other: what an approximately keyed or half-keyed memo confuses with (x, y).
+func near(k int, x, y float64) (float64, float64) {
+	switch k {
+	case 0:
+		return x, math.Nextafter(y, math.Inf(1))
+	case 1:
+		return math.Nextafter(x, math.Inf(-1)), y
+	case 2:
+		return x, y + 1e-10
+	case 3:
+		return x + 1e-10, y
+	case 4:
+		return x, y * (1 + 1e-7)
+	case 5:
+		return x * (1 - 1e-7), y
+	case 6:
+		return x, y + 0.25 // same x, clearly different y
+	default:
+		return x - 0.25, y
+	}
+}
+
 func (g *histGen) line(kind int) string {
 	r := g.r
 	var idx []int
@@ -348,6 +371,9 @@ func (g *histGen) line(kind int) string {
 		var x, y float64
 		if t == pt && r.Chance(0.3) { // same transformer, same input again
 			x, y = px, py
+		} else if t == pt && r.Chance(0.25) { // same transformer, a NEAR duplicate of its previous input
+			// (caches keyed approximately, by one coordinate only, or by a rounded key answer from the wrong entry)
+			x, y = near(r.Intn(8), px, py)
 		} else if t == 0 && pt0 && r.Chance(0.5) { // the first transformer's first input again, later
 			x, y = p0x, p0y
 		} else {
